@@ -128,8 +128,12 @@ STRICT = {
 INVS_DUP = "C02_NoOverlap C04_Lifecycle C05_AtMostOnce C05_InOrder C06_Alive C10_Resolvable C10_DupNoEffect C13_Chain"
 
 
+def reuses_ids(inst):
+    return "MaxDup = 0" not in INST[inst][0] or "SuccAB" in INST[inst][0] or "RespawnKids = TRUE" in INST[inst][0]
+
+
 def model_cfg(inst, eager):
-    invs = INVS_DUP if ("MaxDup = 0" not in INST[inst][0] or "SuccAB" in INST[inst][0] or "RespawnKids = TRUE" in INST[inst][0]) else INVS
+    invs = INVS_DUP if reuses_ids(inst) else INVS
     return ("CONSTANTS " + INST[inst][0] + " Eager = %s " % ("TRUE" if eager else "FALSE") + FIX +
             "\nSPECIFICATION Spec\nINVARIANTS " + invs + "\n")
 
@@ -394,7 +398,10 @@ def do_instance(binp, prop, tier, inst):
             r2 = trace_check(sc, inst, records, list(STRICT[prop]), "%s_%s_strict" % (prop, inst), cont=True)
             for name in violated_names(r2):
                 out["kf"].add(STRICT[prop][name])
-        if prop in FREE_INV and not out["violations"]:
+        # (an id that is spawned again -- duplicate / respawn / succession instances -- is two processes under one name: in
+        # a free-running pass nothing keeps the old one's last steps in front of the new one's first, which the
+        # one-process-per-name predicates assume)
+        if prop in FREE_INV and not out["violations"] and not reuses_ids(inst):
             free_passes(sc, binp, prop, tier, inst, pyinst, scen, spath, out)
         return out
     except vlib.Broken as e:
